@@ -152,11 +152,11 @@ func drawFlow(t *rapid.T, check string) *Case {
 	earlyShut := false
 	if earlyClose {
 		iws = 1 << 20 // each answer has to get through before the next upload starts
-		// NOT drawn by default (development lead, DESIGN 15.6 wave 11): about one such run in 300
-		// ends, on the unchanged tree, with the connection gone and the early answer incomplete;
-		// not diagnosed in the time available (harness artefact or defect), so it is not part
-		// of the registered check
-		if earlyShut = osGetenv("VERIF_C12_EARLYSHUT") != ""; earlyShut {
+		// (this variant found defect D14: the stream's WINDOW_UPDATEs wait behind the blocked
+		// answer; when the answer's last frame is written asynchronously and unread upload
+		// bytes are credited to the connection on close, the scheduler handed out a frame of
+		// the stream that had just been closed - startFrameWrite panicked)
+		if earlyShut = drawBool(t, "earlyshut", 50) || osGetenv("VERIF_C12_EARLYSHUT") != ""; earlyShut {
 			iws = 0
 		}
 	}
@@ -338,7 +338,9 @@ func drawFlow(t *rapid.T, check string) *Case {
 			if earlyShut {
 				// short enough for the proxy to have read it to its end before it blocks on the
 				// client's window: only then is its transport done with the back-end connection
-				early = bodyBytes("early-"+tag, []int{1, 100, 3000, 20000}[rapid.IntRange(0, 3).Draw(t, "earlyshutsz")])
+				// (4000-4096: one DATA frame that fills the handler's 4 KiB buffer and does not fit
+				// into what is left of the connection's write buffer - written asynchronously)
+				early = bodyBytes("early-"+tag, []int{1, 100, 3000, 20000, 4000, 4080, 4096, 4097}[rapid.IntRange(0, 7).Draw(t, "earlyshutsz")])
 			}
 			// (the client's stream window must let the answer through, or the next upload never starts)
 			totalDown += len(early)
@@ -459,8 +461,7 @@ func drawFlow(t *rapid.T, check string) *Case {
 				aux.Bodies[tag] = []byte("ok:" + tag)
 			}
 			aux.Streams[id] = tag
-			if earlyFocus && i == 0 && len(aux.Bodies[tag]) <= 1000 && len(fs) > 3 && osGetenv("VERIF_C12_EARLYPAUSE") != "" {
-				// (only on request, like the variant above: same family, not validated at the thorough tier)
+			if earlyFocus && i == 0 && len(aux.Bodies[tag]) <= 1000 && len(fs) > 3 && (drawBool(t, "earlypause", 50) || osGetenv("VERIF_C12_EARLYPAUSE") != "") {
 				// a short early answer that the proxy has read to its end while the client's stream
 				// window (0) keeps it from being passed on: the outbound transport, done with the
 				// response, gives the unfinished request write a moment, then drops the back-end
